@@ -146,6 +146,18 @@ impl Completions {
         if let Err(err) = self.poll(shared, Some(Duration::ZERO)) {
             log::warn!("error processing last completions: {err}");
         }
+        // If the completion queue overflowed the kernel holds on to the
+        // completions that didn't fit, entering the kernel again flushes them
+        // now that we've made space.
+        while load_kernel_shared(shared.kernel_flags) & libc::IORING_SQ_CQ_OVERFLOW != 0 {
+            let res = shared
+                .enter(1, libc::IORING_ENTER_GETEVENTS, Some(Duration::ZERO))
+                .and_then(|_| self.poll(shared, Some(Duration::ZERO)));
+            if let Err(err) = res {
+                log::warn!("error processing overflowed completions: {err}");
+                break;
+            }
+        }
     }
 }
 
